@@ -63,7 +63,14 @@ class World(object):
         w.S = S
         w.impls = []
         w.classes = []
+        w.outcome_of, w.value_of = outcome_of, value_of
         for i, b in enumerate(bindings):
+            w.add(i, b)
+
+    def add(w, i, b):
+        """register implementation number i (a subclass of the registry class created by the real metaclass)"""
+        outcome_of, value_of, S = w.outcome_of, w.value_of, w.S
+        if True:
             deps = []
             names = b.split("+")
             for nm in names:
@@ -176,6 +183,56 @@ def make_o1(k):
     return o1
 
 
+def make_o2(k):
+    """registration interleaved with evaluation: implementations are registered one after the other and the registry point may be
+    evaluated (fresh broker) after any registration; every evaluation is judged against the implementations registered so far"""
+    def o2(en):
+        with REG:
+            n = 1 + en.choice("k", k)
+            bindings = [BINDINGS[en.choice("bind%d" % i, len(BINDINGS))] for i in range(n)]
+            active = "AB"[en.choice("active", 2)]
+            chosen = {}
+
+            def outcome_of(i):
+                if i not in chosen:
+                    chosen[i] = OUTCOMES[en.choice("outcome%d" % i, len(OUTCOMES))]
+                return chosen[i]
+            vals = {}
+            cnt = [0]
+
+            def value_of(i):
+                cnt[0] += 1
+                vals[i] = en.fresh_int("v%d_%d" % (i, cnt[0]))
+                return vals[i]
+            w = World([], outcome_of, value_of)
+            evals = []
+            for i in range(n):
+                w.add(i, bindings[i])
+                if i + 1 < n and not en.flag("eval%d" % i):
+                    continue
+                evals.append(i + 1)
+                case = lambda mv, ev=list(evals): {"bindings": bindings, "active": active, "evaluate_after": ev,  # noqa
+                                                   "outcomes": dict((str(j), o) for j, o in chosen.items())}
+                en.note_sample(case)
+                w.invoked[:] = []
+                broker = dr.Broker()
+                broker[CTX[active]] = CTX[active]()
+                with oset.symbolic_order(mode="global"):
+                    dr.run(dr.get_dependency_graph(w.S.rp), broker=broker)
+                eqs = []
+
+                def value_eq(got, L):
+                    if isinstance(got, core.SInt):
+                        eqs.append(got == vals[L])
+                        return True
+                    return False
+                bad = judge(bindings[:i + 1], active, chosen, w, broker, value_eq)
+                en.must_hold(not bad, "latest-wins", case, detail=["evaluation after %d registration(s): %s" % (i + 1, b_) for b_ in bad])
+                for e in eqs:
+                    en.must_hold(e, "latest-wins", case, detail="spec value differs from the winning implementation's value")
+    return o2
+
+
 def obligations(tier):
     thorough = tier == "thorough"
     k = 4 if thorough else 3
@@ -188,6 +245,12 @@ def obligations(tier):
                                "values": "unconstrained symbolic ints", "set order": "every global order"},
                        outside=["the ~1000 shipped spec entries are instances of the mechanism and are not re-verified one by one",
                                 "implementations that subclass another implementation class instead of the registry class"],
+                       encoded=enc, budget_s=900 if thorough else 120, replay="override", check_sample=True),
+            Obligation("O2-interleaved", make_o2(3 if thorough else 2), ["latest-wins"],
+                       desc="registrations interleaved with evaluations: the registry point may be evaluated after any registration (a spec set loaded after an earlier evaluation in the same process); every evaluation is judged against the implementations registered so far",
+                       bounds={"implementations": 3 if thorough else 2, "bindings": BINDINGS, "active context": ["A", "B"], "outcomes": OUTCOMES,
+                               "evaluation points": "after any subset of the registrations, always after the last", "set order": "every global order"},
+                       outside=["registrations while an evaluation is in progress"],
                        encoded=enc, budget_s=900 if thorough else 120, replay="override", check_sample=True)]
 
 
@@ -195,6 +258,20 @@ def obligations(tier):
 def _native(case):
     outcomes = dict((int(i), o) for i, o in case["outcomes"].items())
     bindings = case["bindings"]
+    if "evaluate_after" in case:
+        w = World([], lambda i: outcomes.get(i, "value"), lambda i: 1000 + i)
+        bad = []
+        full = dict((i, outcomes.get(i, "value")) for i in range(len(bindings)))
+        for i, b in enumerate(bindings):
+            w.add(i, b)
+            if (i + 1) in case["evaluate_after"]:
+                w.invoked[:] = []
+                broker = dr.Broker()
+                broker[CTX[case["active"]]] = CTX[case["active"]]()
+                dr.run(dr.get_dependency_graph(w.S.rp), broker=broker)
+                bad += ["evaluation after %d registration(s): %s" % (i + 1, x)
+                        for x in judge(bindings[:i + 1], case["active"], full, w, broker, lambda got, L: got == 1000 + L)]
+        return bad
     w = World(bindings, lambda i: outcomes.get(i, "value"), lambda i: 1000 + i)
     broker = dr.Broker()
     broker[CTX[case["active"]]] = CTX[case["active"]]()
